@@ -296,3 +296,51 @@ package go_clipper2
 //@   props C16 C03
 //@   loop 0 invariant [each] len(result) == len(paths) && forall(k, 0, _i, same(result[k], SimplifyPathD(paths[k], epsilon, isClosedPaths)))
 //@   ensures [path-by-path] len(result) == len(paths) && forall(k, 0, len(paths), same(result[k], SimplifyPathD(paths[k], epsilon, isClosedPaths)))
+
+// ---------------------------------------------------------------------------------
+// C14 (continued): areas, point in polygon
+// ---------------------------------------------------------------------------------
+
+//@ spec noWrap(path Path64) bool = forall(k, 0, len(path)+1, absI(shoelace(path, k)) < pow2(62))
+//@ spec sumArea(paths Paths64, k int) float64 = ite(k <= 0, 0.0, sumArea(paths, k-1) + Area64(paths[k-1]))
+
+//@ func Area64
+//@   props C14
+//@   pure
+//@   requires domPath(path, 29)
+//@   requires noWrap(path)
+//@   loop 0 invariant [acc] a == shoelace(path, _i) && prevPt == path[prevIdx(_i, len(path))] && len(path) >= 3
+//@   ensures [short] len(path) < 3 ==> result == 0
+//@   ensures [half] len(path) >= 3 ==> 2*result == toReal(shoelace(path, len(path)))
+
+//@ func Area64 variant anylength
+//@   props C14
+//@   budget 3
+//@   requires domPath(path, 29)
+//@   loop 0 invariant [acc] a == shoelace(path, _i) && prevPt == path[prevIdx(_i, len(path))] && len(path) >= 3
+
+//@ func IsPositive64
+//@   props C14
+//@   requires domPath(poly, 29)
+//@   requires noWrap(poly)
+//@   ensures [sign] len(poly) >= 3 ==> result == (shoelace(poly, len(poly)) >= 0)
+//@   ensures [short] len(poly) < 3 ==> result
+
+//@ func AreaPaths64
+//@   props C14
+//@   requires forall(k, 0, len(paths), domPath(paths[k], 29) && noWrap(paths[k]))
+//@   loop 0 invariant [sum] a == sumArea(paths, _i)
+//@   ensures [sum] result == sumArea(paths, len(paths))
+
+//@ func PointInPolygon
+//@   props C14 C03
+//@   requires dom(pt, 29) && domPath(polygon, 29)
+//@   loop 0 invariant [idx] 0 <= start && start <= lenP && lenP == len(polygon) && lenP >= 3
+//@   loop 0 decreases lenP - start
+//@   loop 1 invariant [idx] 0 <= start && start < lenP && lenP == len(polygon) && lenP >= 3 && 0 <= i && i <= end && end <= lenP && (end == lenP || end == start) && 0 <= val && val <= 1
+//@   loop 1.0 invariant [idx] 0 <= start && start < lenP && lenP == len(polygon) && 0 <= i && i <= end && end <= lenP
+//@   loop 1.0 decreases end - i
+//@   loop 1.1 invariant [idx] 0 <= start && start < lenP && lenP == len(polygon) && 0 <= i && i <= end && end <= lenP
+//@   loop 1.1 decreases end - i
+//@   ensures [short] len(polygon) < 3 ==> result == IsOutside
+//@   ensures [range] result == IsOn || result == IsInside || result == IsOutside
